@@ -2394,7 +2394,8 @@ class Transport(threading.Thread, ClosingContextManager):
                     event.set()
                 try:
                     self.lock.acquire()
-                    self.server_accept_cv.notify()
+                    # every thread blocked in accept(), not just one of them
+                    self.server_accept_cv.notify_all()
                 finally:
                     self.lock.release()
             self.sock.close()
